@@ -33,6 +33,14 @@ func (ci *ChunkInfo) VerifOnPyramidResp(ctx context.Context, rootCid, peer boson
 	return ci.onChunkPyramidResp(ctx, nil, rootCid, peer, resps)
 }
 
+// VerifOnChunkInfoResp delivers a chunk-info response (overlay -> bit vector
+// bytes) for rootCid as if `from` had answered a chunk-info request: it runs the
+// real onChunkInfoResp handler body (which records a discovery entry for
+// `from` when the response contains one).
+func (ci *ChunkInfo) VerifOnChunkInfoResp(ctx context.Context, rootCid, from boson.Address, presence map[string][]byte) {
+	ci.onChunkInfoResp(ctx, nil, from, pb.ChunkInfoResp{RootCid: rootCid.Bytes(), Presence: presence})
+}
+
 // VerifShutdown ends the four table-listener goroutines (they range over their
 // channels) and drops the references the two leaked ticker goroutines could
 // keep alive. The instance must not be used afterwards.
